@@ -265,6 +265,10 @@ def jobs(tier, seed):
                   {"shapes": [F([S(1), O(1, [(1, []), (1, [])]), R([S(1)])])],
                    "opts": {"select": True, "stop": "sym", "out_dom": {"*": [0, 1]}}, "checks": ["rollup"]},
                   reach=["C03.rollup(outline)", "C03.rollup(rule)"], min_paths=20, cost=6000, validate=100))
+    # a scenario without own steps below a background: its status follows the inherited steps
+    js.append(Job("c.run.bg-stepless", "vlib.stage1:h_stage1",
+                  {"shapes": [F([S(0), S(1), R([S(0)], bg=1)], bg=1)], "opts": {"out_dom": {"*": [0, 2]}, "dry_run": "sym"}, "checks": ["rollup", "steps"]},
+                  reach=["C03.rollup(feature)", "C03.rollup(scenario)"], min_paths=20, cost=5000, validate=100))
     # outline rows below a background without placeholders: every row has its own background steps and statuses
     js.append(Job("c.run.bg-outline", "vlib.stage1:h_stage1",
                   {"shapes": [F([O(1, [(2, [])]), S(1)], bg=1)], "opts": {"out_dom": {"*": [0, 2]}}, "checks": ["rollup", "steps"]},
